@@ -20,7 +20,7 @@ def run(rep, work, tier, seed, only=None):
     for r in data:
         desc = {'decoder': r['decoder'], 'cls': r['cls'], 'size': r['size'], 'params': r['params'], 'deformation': r['deformation'],
                 'direction': r['direction']}
-        rep.case(json.dumps(desc, sort_keys=True), True, sample=dict(desc, histories=r.get('n_checks')) if len(rep.samples) < 4 else None)
+        rep.case(json.dumps(desc, sort_keys=True), False, sample=dict(desc, histories=r.get('n_checks')) if len(rep.samples) < 4 else None)
         rep.evaluations += max(0, r.get('n_checks', 0) - 1)
         rep.count('histories:' + r['decoder'], r.get('n_checks', 0))
         for i in range(r.get('n_checks', 0)):
